@@ -66,7 +66,7 @@ REACH = ['pywbem._tupleparse:TupleParser.check_node',
 
 def plan(tier):
     if tier == 'quick':
-        return dict(cases=24000, time_s=80, case_cpu_s=30)
+        return dict(cases=48000, time_s=150, case_cpu_s=30)
     return dict(cases=300000, time_s=540, case_cpu_s=60)
 
 
@@ -81,6 +81,28 @@ def setup_worker(ctx):
     ctx.state['facade'] = xmlserver.Facade(fconn)
     ctx.state['pool'] = []      # recent valid responses (bytes)
     ctx.state['recordings'] = load_recordings()
+    ctx.state['corpus'] = load_corpus()
+
+
+def load_corpus():
+    """Responses that once exposed a defect (repaired in /repo, seeded, or a
+    validation mutant): operation, method name, response bytes, status and
+    headers.  Sorted by file name, so that case i of every run is entry i."""
+    import glob
+    import json
+    import os
+    from vf import VERIF_DIR
+    out = []
+    for fn in sorted(glob.glob(os.path.join(VERIF_DIR, 'corpus', 'C02',
+                                            '*.json'))):
+        try:
+            with open(fn, encoding='utf-8') as f:
+                rec = json.load(f)
+            if rec['op'] in ops.ALL_OPS and 'response_b64' in rec:
+                out.append(rec)
+        except (OSError, ValueError, KeyError):
+            continue
+    return out
 
 
 def load_recordings():
@@ -398,6 +420,148 @@ ALLOWED = {
 }
 
 
+NUMERIC_TYPES = ['uint8', 'uint16', 'uint32', 'uint64', 'sint8', 'sint16',
+                 'sint32', 'sint64', 'real32', 'real64']
+ALL_TYPE_NAMES = NUMERIC_TYPES + ['boolean', 'string', 'char16', 'datetime',
+                                  'reference']
+BOOL_TOKENS = ['TRUE', 'FALSE', 'true', 'false', 'True', '1', '0', '', 'yes',
+               ' TRUE', 'TRUE ', 'TRUE\n', 'tru']
+# hostile values per attribute: what a server that is wrong about exactly that
+# attribute would send
+ATTR_DOMAIN = {
+    'TYPE': ALL_TYPE_NAMES + ['Uint8', 'UINT8', 'uint', 'uint128', 'int8',
+                              'real', 'float', '', ' ', 'uint8 ', ' uint8',
+                              'uint8\n', 'string\n', 'str', 'object'],
+    'PARAMTYPE': ALL_TYPE_NAMES + ['Uint8', 'uint128', '', 'uint8\n',
+                                   'reference\n', 'object', 'instance'],
+    'ARRAYSIZE': ['', 'x', '-1', '0', '0x10', '1e3', '1.5', ' 5', '5 ', '5\n',
+                  '99999999999999999999', '+3', '١٢', 'None', 'TRUE'],
+    'CODE': ['', 'x', '-1', '0', '99', '1.5', '0x1', ' 1', '1\n',
+             '99999999999999999999', '٥', 'CIM_ERR_FAILED'],
+    'EmbeddedObject': ['instance', 'object', 'Instance', 'OBJECT', 'x', '',
+                       'instance\n', 'class'],
+    'EMBEDDEDOBJECT': ['instance', 'object', 'Instance', 'x', ''],
+    'VALUETYPE': ['string', 'numeric', 'boolean', 'Numeric', 'x', '',
+                  'numeric\n', 'datetime'],
+    'ISARRAY': BOOL_TOKENS, 'PROPAGATED': BOOL_TOKENS,
+    'OVERRIDABLE': BOOL_TOKENS, 'TOSUBCLASS': BOOL_TOKENS,
+    'TOINSTANCE': BOOL_TOKENS, 'TRANSLATABLE': BOOL_TOKENS,
+    'NAME': ['', ' ', '\n', 'ä', 'a b', '1', 'x' * 300],
+    'CLASSNAME': ['', ' ', 'ä', 'a.b', 'a:b', '1'],
+    'REFERENCECLASS': ['', ' ', 'ä', '1'], 'SUPERCLASS': ['', ' ', 'ä'],
+    'CLASSORIGIN': ['', ' ', 'ä'],
+    'CIMVERSION': ['', '1.0', '3.0', '2', 'x', '2.x'],
+    'DTDVERSION': ['', '1.0', '3.0', '2', 'x'],
+    'PROTOCOLVERSION': ['', '0.9', '2.0', 'x'], 'ID': ['', 'x', '-1', ' '],
+}
+# value texts that are wrong for a numeric type in one specific way each
+NUMBER_TEXTS = ['9' * 400, '-' + '9' * 400, '1e400', '-1e400', '1e-400',
+                'INF', '-INF', 'NaN', 'inf', 'nan', 'Infinity', '1.5', '-0',
+                '0x' + 'F' * 20, '0X1f', '256', '-129', '65536', '4294967296',
+                '18446744073709551616', '-9223372036854775809', '1e2', '1E2',
+                '', ' ', '+5', '5.', '.5', '1_000', '1,5', '٣', '0b1', '0o7',
+                '5\n', '\n5', ' 5 ', 'TRUE', '1 2', '--5', '1e', 'e5',
+                '0x', '1.0.0', '1/2']
+
+
+# where an optional attribute may legally appear (DSP0203), for adding it
+LEGAL_ON = {
+    'ARRAYSIZE': ['PROPERTY.ARRAY', 'PARAMETER.ARRAY', 'PARAMETER.REFARRAY',
+                  'QUALIFIER.DECLARATION'],
+    'CLASSORIGIN': ['PROPERTY', 'PROPERTY.ARRAY', 'PROPERTY.REFERENCE',
+                    'METHOD'],
+    'PROPAGATED': ['PROPERTY', 'PROPERTY.ARRAY', 'PROPERTY.REFERENCE',
+                   'METHOD', 'QUALIFIER'],
+    'REFERENCECLASS': ['PROPERTY.REFERENCE', 'PARAMETER.REFERENCE',
+                       'PARAMETER.REFARRAY'],
+    'ISARRAY': ['QUALIFIER.DECLARATION'],
+    'EmbeddedObject': ['PROPERTY', 'PROPERTY.ARRAY', 'PARAMVALUE',
+                       'RETURNVALUE'],
+    'EMBEDDEDOBJECT': ['PROPERTY', 'PROPERTY.ARRAY', 'PARAMVALUE',
+                       'RETURNVALUE'],
+    'PARAMTYPE': ['PARAMVALUE', 'RETURNVALUE'],
+    'TYPE': ['KEYVALUE', 'METHOD'],
+    'VALUETYPE': ['KEYVALUE'],
+    'OVERRIDABLE': ['QUALIFIER', 'QUALIFIER.DECLARATION'],
+    'TOSUBCLASS': ['QUALIFIER', 'QUALIFIER.DECLARATION'],
+    'TOINSTANCE': ['QUALIFIER', 'QUALIFIER.DECLARATION'],
+    'TRANSLATABLE': ['QUALIFIER', 'QUALIFIER.DECLARATION'],
+    'SUPERCLASS': ['CLASS'],
+}
+REAL_TEXTS = ['9' * 400, '-' + '9' * 400, '1' + '0' * 310, '1e400',
+              '-1e400', '1e-400', '4e38', '1.8e308', 'INF', '-INF', 'NaN',
+              'inf', 'Infinity', '1e', '.', '1.5e', '0x1p3', '1d5']
+INT_TEXTS = ['256', '-129', '65536', '-32769', '4294967296', '-2147483649',
+             '18446744073709551616', '-9223372036854775809', '-1', '1e2',
+             '1.0', '1.5', 'INF', '-INF', 'NaN', '1e400', '9' * 400, '0x100',
+             '0x' + 'F' * 20, '-0x81']
+
+
+def domain_value(rng, attr, current=None):
+    r = rng.random()
+    if attr in ('TYPE', 'PARAMTYPE') and r < 0.3:
+        # a legal type name with something after or before it
+        t = current if current in ALL_TYPE_NAMES and r < 0.2 else \
+            rng.choice(ALL_TYPE_NAMES)
+        pad = rng.choice(PADS)
+        return t + pad if rng.random() < 0.75 else pad + t
+    return rng.choice(ATTR_DOMAIN[attr])
+
+
+def directed_mutation(rng, et, els):
+    """One attribute or one typed value made wrong in one specific way."""
+    how = rng.choice(['attr', 'attr', 'attr-add', 'number', 'number',
+                      'embedded-attr', 'type-swap'])
+    if how == 'attr':
+        cands = [(e, a) for e in els for a in e.attrib if a in ATTR_DOMAIN]
+        if cands:
+            # every attribute kind equally likely, whatever its frequency
+            a = rng.choice(sorted({c[1] for c in cands}))
+            e = rng.choice([c[0] for c in cands if c[1] == a])
+            e.set(a, domain_value(rng, a, e.get(a)))
+            return 'attr:%s.%s' % (e.tag, a)
+    if how == 'attr-add':
+        cands = [(e, a) for a, tags in LEGAL_ON.items() for e in els
+                 if e.tag in tags and e.get(a) is None]
+        if cands:
+            a = rng.choice(sorted({c[1] for c in cands}))
+            e = rng.choice([c[0] for c in cands if c[1] == a])
+            e.set(a, domain_value(rng, a))
+            return 'attr-add:%s.%s' % (e.tag, a)
+    if how == 'number':
+        cands = [e for e in els
+                 if (e.get('TYPE') or e.get('PARAMTYPE')) in NUMERIC_TYPES]
+        vals = [(v, e.get('TYPE') or e.get('PARAMTYPE')) for e in cands
+                for v in ([e] if e.tag == 'KEYVALUE' else e.iter('VALUE'))]
+        if vals:
+            v, t = rng.choice(vals)
+            if rng.random() < 0.6:
+                v.text = rng.choice(REAL_TEXTS if t.startswith('real')
+                                    else INT_TEXTS)
+            else:
+                v.text = rng.choice(NUMBER_TEXTS)
+            return 'number:' + t[:4]
+    if how == 'embedded-attr':
+        # EmbeddedObject on an element whose type is not string
+        cands = [e for e in els if (e.get('TYPE') or e.get('PARAMTYPE'))
+                 in ALL_TYPE_NAMES and e.tag.startswith(
+                     ('PROPERTY', 'PARAMVALUE', 'RETURNVALUE', 'PARAMETER'))]
+        if cands:
+            e = rng.choice(cands)
+            e.set(rng.choice(['EmbeddedObject', 'EMBEDDEDOBJECT']),
+                  rng.choice(['instance', 'object']))
+            return 'embedded-attr:%s' % (e.get('TYPE') or e.get('PARAMTYPE'))
+    # the declared type exchanged for another one, the value left as it is
+    cands = [(e, a) for e in els for a in ('TYPE', 'PARAMTYPE')
+             if e.get(a) in ALL_TYPE_NAMES]
+    if cands:
+        e, a = rng.choice(cands)
+        old = e.get(a)
+        e.set(a, rng.choice([t for t in ALL_TYPE_NAMES if t != old]))
+        return 'type-swap:%s->%s' % (old, e.get(a))
+    raise ValueError('nothing to direct a mutation at')
+
+
 def wbem_uri_text(rng):
     """A WBEM URI of an instance or class path - well-formed, or damaged the
     way a cut-off or concatenated string is."""
@@ -427,11 +591,24 @@ def wbem_uri_text(rng):
 
 
 def mutate(rng, data, pool):
-    """Structure-aware mutation of a valid response document."""
+    """Structure-aware mutation of a valid response document; a mutation
+    kind that finds nothing to work on in this document is replaced by
+    another one (up to four draws)."""
+    out = (data, 'mutation-not-applicable')
+    for _ in range(4):
+        out = mutate_once(rng, data, pool)
+        if out[1] not in ('mutation-not-applicable', 'unparseable-seed'):
+            break
+    return out
+
+
+def mutate_once(rng, data, pool):
     et = etree()
     huge = et.XMLParser(huge_tree=True, resolve_entities=False)
     try:
-        root = et.fromstring(data, huge)
+        # (recorded documents may start with white space before the XML
+        # declaration, which lxml does not accept)
+        root = et.fromstring(data.lstrip(), huge)
     except et.XMLSyntaxError:
         return data, 'unparseable-seed'
     els = list(root.iter())
@@ -444,6 +621,8 @@ def mutate(rng, data, pool):
              e.get('NAME') in ('EnumerationContext', 'EndOfSequence')]
     retv = [e for e in els if e.tag in ('RETURNVALUE', 'PARAMVALUE') and
             e.get('NAME') not in ('EnumerationContext', 'EndOfSequence')]
+    if rng.random() < 0.22:
+        kind = 'directed'
     if pullp and rng.random() < 0.3:
         kind = 'pull-params'
     elif retv and rng.random() < 0.3:
@@ -474,6 +653,8 @@ def mutate(rng, data, pool):
                     v.text = {'empty': None, 'blank': ' ',
                               'token': rng.choice(TOKENS)}[how]
                 kind += ':%s=%s' % (e.get('NAME')[:3], how)
+        elif kind == 'directed':
+            kind += ':' + directed_mutation(rng, et, els)
         elif kind == 'uri-value':
             # a reference given as WBEM URI string in a VALUE element
             rv = [x for x in retv if x.tag == 'RETURNVALUE']
@@ -794,6 +975,15 @@ def run_case(ctx, i, rng):
                          'mutated', 'mutated', 'http', 'fault', 'valid',
                          'recorded'])
     recording = None
+    corpus = st.get('corpus') or []
+    witness = None
+    if i < len(corpus) and not ctx.replay:
+        # the first cases of every run answer with the responses that once
+        # exposed a defect (corpus/C02, see tools/corpus_add.py)
+        witness = corpus[i]
+        rclass = 'corpus'
+        recording = (witness['op'], witness.get('method'), None)
+        ctx.count('corpus-witness-replayed')
     if rclass == 'recorded':
         if st.get('recordings'):
             recording = rng.choice(st['recordings'])
@@ -809,6 +999,8 @@ def run_case(ctx, i, rng):
     if not pool and rclass == 'mutated':
         rclass = 'valid'
     target = rng.choice([0, 0, 0, 1, 2])     # which request gets the payload
+    if witness is not None:
+        target = witness.get('target', 0)
     script = {'n': 0, 'kind': rclass, 'sent': [], 'reached': False}
 
     def valid_answer(request):
@@ -828,6 +1020,9 @@ def run_case(ctx, i, rng):
             return xmlserver.error_response(op, 1, 'vf facade failure')
 
     recorded = None
+    if witness is not None:
+        recorded = (base64.b64decode(witness['response_b64']),
+                    witness.get('status', 200), witness.get('headers'))
     if ctx.replay:
         # the facade's repository and the splice pool carry state from earlier
         # cases of the worker: a replay answers with the recorded bytes
@@ -1032,8 +1227,13 @@ def check_invoke_types(ctx, res, body, detail):
             else ('VALUE', 'VALUE.ARRAY')
         if kids and kids[0] not in want:
             return '?'
-        if e.get('EmbeddedObject') or e.get('EMBEDDEDOBJECT'):
-            return 'embedded' if t == 'string' else '?'
+        emb = [e.get(a) for a in ('EmbeddedObject', 'EMBEDDEDOBJECT')
+               if e.get(a) is not None]
+        if emb:
+            # (an attribute value other than instance/object is invalid in
+            # itself: what a liberal client makes of it is not documented)
+            return 'embedded' if t == 'string' and all(
+                x in ('instance', 'object') for x in emb) else '?'
         return t
 
     for e in mr:
